@@ -658,7 +658,10 @@ def mk_merge(ctx):
             errs.append("the nodes of other.%s are not re-applied to self" % fld)
             continue
         fr = iteration_frame(it, good[0])
-        if fr is None or not rc.must_pass(good, start=fr[0], stops=(fr[1],)) or not rc.must_pass([fr[1]]):
+        # (an early return when the other register holds nothing skips nothing: the clause about other.<fld> is asked in the world
+        # where other.<fld> is not empty)
+        reached = fr is not None and (rc.must_pass([fr[1]]) or must_pass_unless_noop(facts, body, it, [fr[1]], {'theirs': (2, (fld,))}))
+        if fr is None or not rc.must_pass(good, start=fr[0], stops=(fr[1],)) or not reached:
             errs.append("a node of other.%s can be skipped" % fld)
     ctx.check(not errs, 'merge', body, 'every node of other.dag and other.orphans re-applied', errs[0] if errs else '')
 
@@ -735,7 +738,7 @@ def mk_read(ctx):
     """MerkleReg::read = every root hash looked up in dag."""
     facts = ctx.facts
     body = ctx.inherent(MERKLE, 'read')
-    raw = interp(facts, body).ret
+    raw = general_ret(facts, body, {'roots': (1, ('roots',))}) or interp(facts, body).ret     # `if self.roots.is_empty() { empty }`
     r = drop_lv(raw)
     ok = False
     rr = raw
